@@ -21,7 +21,11 @@ def showRes : Option (Option (List Char)) → String
 
 def okName (n : List Char) : Bool := !n.contains '\n'
 
-/-- `norm p` | `ident p` | `one p name` | `glob g pats name` | `exc g pats name` | `ord pats name` -/
+/-- `greedy` = the shared greedy extension prefix of the current code; `inorder` = the variant -/
+def variant (s : String) : Option Bool :=
+  if s == "greedy" then some false else if s == "inorder" then some true else none
+
+/-- `norm p` | `ident p` | `one p name` | `glob variant g pats name` | `exc variant g pats name` | `ord pats name` -/
 def handle : List String → String
   | ["norm", p] =>
     match decStr p with
@@ -40,14 +44,14 @@ def handle : List String → String
         | none => "E"
       else "bad-op"
     | _, _ => "bad-op"
-  | ["glob", g, ps, n] =>
-    match g.toNat?, decList ps, decStr n with
-    | some g, some ps, some n => if g > 0 ∧ okName n then showRes (globster g ps n) else "bad-op"
-    | _, _, _ => "bad-op"
-  | ["exc", g, ps, n] =>
-    match g.toNat?, decList ps, decStr n with
-    | some g, some ps, some n => if g > 0 ∧ okName n then showRes (exceptionGlobster g ps n) else "bad-op"
-    | _, _, _ => "bad-op"
+  | ["glob", v, g, ps, n] =>
+    match variant v, g.toNat?, decList ps, decStr n with
+    | some v, some g, some ps, some n => if g > 0 ∧ okName n then showRes (globster v g ps n) else "bad-op"
+    | _, _, _, _ => "bad-op"
+  | ["exc", v, g, ps, n] =>
+    match variant v, g.toNat?, decList ps, decStr n with
+    | some v, some g, some ps, some n => if g > 0 ∧ okName n then showRes (exceptionGlobster v g ps n) else "bad-op"
+    | _, _, _, _ => "bad-op"
   | ["ord", ps, n] =>
     match decList ps, decStr n with
     | some ps, some n => if okName n then showRes (ordered ps n) else "bad-op"
